@@ -13,5 +13,6 @@ var c01Targeted = []string{
 	"1 ~ 1", "1 !~ 1", "(1 | 2).count()", "1 in (1 | 2)", "Patient.name.all()", "Patient.name.all(1)", "Patient.name.where()", "Patient.name.where(1)", "Patient.name.select()", "Patient.name.repeat(given)", "Patient.name.ofType(HumanName)", "Patient.name.aggregate($total + 1, 0)",
 	"now() - now()", "today() + 1", "timeOfDay() + 1 day", "5 'mg' + 3", "5 'mg' * 2", "5 'mg' / 0", "5 days + @2020", "true + 1", "{} + {}", "Patient.name + Patient.name", "Patient.name.given + 1", "%e + 1", "%e.given", "%v.family",
 	"Patient.birthDate + 1000000000 years", "@2020-01-01 + 9223372036854775807 days", "@2020-01-01T00:00:00Z + 9223372036854775807 hours", "@T00:00 + 9223372036854775807 hours", "1.0e400", "'x'.toQuantity('days')", "'5 days'.toQuantity('years')", "5.toQuantity('mg')",
+	"``", "Patient.``", "Patient.``.x", "Patient.where(`` = 1)", "%``", "` `", "Patient.` `", "```", "%''", "%' '", "``()", "Patient.``()", "`a`.``",
 	"Patient.extension.value.value", "Patient.extension.value.unit", "Patient.extension.value > 1 'mg'", "Patient.extension.value + 1 'mg'", "Patient.extension.value.toString()",
 }
